@@ -6,6 +6,7 @@ import Pycoin.Proofs.BIP32Secp
 import Pycoin.Proofs.BIP32Text
 import Pycoin.Proofs.BIP32Coords
 import Pycoin.Proofs.BIP32Path
+import Pycoin.Proofs.SubpathsSpec
 /-!
 C09 — Hierarchical key derivation follows BIP32 and commutes with going public.  Property theorems
 (helper lemmas: `Proofs/BIP32*.lean`).
@@ -373,6 +374,50 @@ theorem C09_path_element (digits : List Char) :
     parseStep (digits ++ ['H']) = parseStep (digits ++ ['p']) ∧ parseStep (digits ++ ['p']) = parseStep (digits ++ ['\'']) ∧
     parseStep (digits ++ ['H']) = (match Subpaths.pyInt digits with | none => .error .value | some i => .ok (i, true)) := by
   refine ⟨?_, ?_, ?_⟩ <;> simp [parseStep_snoc, Subpaths.hardeningChars] <;> rfl
+
+/-! ## path ranges -/
+
+section subpaths
+open Pycoin.Subpaths
+
+/-- **subpaths_spec.** A path range written as components (joined by `/`) of elements (joined by `,`), each element
+either a plain text or a range `a-b` of decimal numbers, optionally followed by one of `'`, `p`, `H` (`Elem`,
+`Elem.text`, well-formedness `Elem.WF`): `list(subpaths_for_path_range(text))` is the `itertools.product` of the
+components' expansions, each tuple joined by `/`, where a plain element expands to itself, `a-b` to the decimal texts
+of `a, a+1, …, b` in order (nothing when `b < a`), and any hardening mark to `H`. -/
+theorem C09_subpaths_spec (comps : List (List Elem)) (hne : comps ≠ []) (hne' : ∀ es ∈ comps, es ≠ [])
+    (hwf : ∀ es ∈ comps, ∀ e ∈ es, e.WF) :
+    subpathsForPathRange (join '/' (comps.map compText)) =
+      .ok ((product (comps.map fun es => es.flatMap Elem.expand)).map (join '/')) :=
+  subpaths_spec comps hne hne' hwf
+
+/-- `itertools.product` is the cartesian product: a tuple is listed iff it picks one element of each pool, in order;
+the number of tuples is the product of the pool sizes -/
+theorem C09_subpaths_product_mem {α} (pools : List (List α)) (l : List α) :
+    (l ∈ product pools ↔ Chooses l pools) ∧
+    (product pools).length = (pools.map List.length).foldr (· * ·) 1 :=
+  ⟨mem_product pools l, length_product pools⟩
+
+/-- … **in order**: the tuple at position `i·m + j` (`m` = number of tuples of the remaining pools) is the `i`-th
+element of the first pool followed by the `j`-th tuple of the rest — the last component varies fastest -/
+theorem C09_subpaths_product_order {α} (xs : List α) (rest : List (List α)) (i j : Nat) (hi : i < xs.length)
+    (hj : j < (product rest).length) :
+    (product (xs :: rest))[i * (product rest).length + j]? =
+      (match xs[i]?, (product rest)[j]? with
+       | some x, some t => some (x :: t)
+       | _, _ => none) :=
+  product_order xs rest i j hi hj
+
+/-- the empty range is the empty path; `int("%d" % n) = n` (what makes `a-b` mean the numbers `a … b`) -/
+theorem C09_subpaths_basics (n : Nat) :
+    subpathsForPathRange [] = .ok [[]] ∧ pyInt (showInt (n : Int)) = some (n : Int) :=
+  ⟨rfl, pyInt_showInt n⟩
+
+example : subpathsForPathRange "5-6/7-8p,15/1-2".toList =
+    .ok (["5/7H/1", "5/7H/2", "5/8H/1", "5/8H/2", "5/15/1", "5/15/2", "6/7H/1", "6/7H/2", "6/8H/1", "6/8H/2", "6/15/1",
+      "6/15/2"].map String.toList) := by decide
+
+end subpaths
 
 /-! ## the sub-key cache is transparent -/
 
